@@ -84,8 +84,14 @@ def line_text(k, n, a, b):
     raise ValueError(f'unknown line kind {k}')
 
 
-def render_prog(prog, inline_includes=False):
+JOINABLE = {'i1', 'i2', 'i3', 'byte', 'm2', 'fill', 'zero', 'raw'}
+
+
+def render_prog(prog, inline_includes=False, join_labels=False):
     """prog: list of [k, n, a, b]. Returns (files {name: text}, pos {prog index (1-based): (filename, lineno)}).
+
+    join_labels: a label line directly followed (in the same file) by an instruction / data line is written in front of it on
+    the same source line (label placement carries no meaning).
 
     incb/ince brackets become '#include "incK.asm"' + a separate file, or (inline_includes) are pasted in place
     (used for the C17 paste-equivalence: file-scope names are then renamed apart by the caller).
@@ -113,7 +119,10 @@ def render_prog(prog, inline_includes=False):
             if inline_includes:
                 files[stack[-1]].append('; end include')
             continue
-        files[cur].append(line_text(k, n, a, b))
+        if join_labels and k in JOINABLE and idx >= 2 and prog[idx - 2][0] == 'lab' and pos.get(idx - 1, (None, 0)) == (cur, len(files[cur])):
+            files[cur][-1] += ' ' + line_text(k, n, a, b)
+        else:
+            files[cur].append(line_text(k, n, a, b))
         pos[idx] = (cur, len(files[cur]))
     return {f: '\n'.join(ls) + '\n' for f, ls in files.items()}, pos
 
